@@ -98,7 +98,7 @@ impl Property for C03 {
     fn components_stubbed(&self) -> Vec<&'static str> { vec!["no TCP: commands enter through the ShardedActorState API (the connection-level twin is part of C04)", "TimeSource -> SimClock"] }
     fn assumptions(&self) -> Vec<&'static str> { vec!["SPOP/SRANDMEMBER are excluded (their choice is legitimately random)", "replies of unordered commands are compared as multisets; SCAN-family replies by their item sets"] }
     fn required_probes(&self) -> Vec<&'static str> { vec!["key_via_two_paths", "multikey_cmd"] }
-    fn runs(&self, tier: Tier) -> u64 { match tier { Tier::Quick => 3000, Tier::Thorough => 150_000 } }
+    fn runs(&self, tier: Tier) -> u64 { match tier { Tier::Quick => 150000, Tier::Thorough => 3000000 } }
 
     fn run(&self, src: &mut Src, ctx: &RunCtx) -> RunReport {
         let mut rep = RunReport::default();
